@@ -21,8 +21,8 @@ META = dict(
           "every structure file back with POSCAR_occ."),
     note=("Partial: the tar container format, GNU make and the perl interpreter are runtimes outside the Coq model; they are "
           "exercised for real on every run. nebmake.pl (third-party VTST script) is only checked for presence. The CONTCAR of a "
-          "relaxation is replaced by the unrelaxed POSCAR of the state. supercell.yaml is not examined. Until automator.py "
-          "stops importing pkg_resources (absent from this environment) the check can only report the import failure."),
+          "relaxation is replaced by the unrelaxed POSCAR of the state. supercell.yaml is not examined. If onsager.automator "
+          "cannot be imported (as before /repo 5b2a9b5: pkg_resources) the check can only report that (key c30-import)."),
     technique="Coq-verified checkers run on archive contents + running the bundled scripts",
 )
 
